@@ -94,6 +94,15 @@ pub fn c_falsey_consts() -> bool {
     && !laythe_core::utils::is_falsey(VALUE_TRUE)
 }
 
+/// O-14.7 equality is reflexive on every value that is not a NaN (the runtime tests `== VALUE_UNDEFINED`, `== VALUE_NIL`, ...)
+pub fn c_eq_reflexive(a: u64) -> bool {
+  let f = f64::from_bits(a);
+  let v = Value::from(f);
+  VALUE_NIL == VALUE_NIL && VALUE_TRUE == VALUE_TRUE && VALUE_FALSE == VALUE_FALSE && VALUE_UNDEFINED == VALUE_UNDEFINED
+    && (v == v) == !f.is_nan()
+    && rec_hash(&VALUE_UNDEFINED) == rec_hash(&VALUE_UNDEFINED)
+}
+
 #[cfg(kani)]
 mod proofs {
   use super::*;
@@ -115,6 +124,9 @@ mod proofs {
 
   #[kani::proof]
   fn o14_6_falsey() { assert!(c_falsey_num(any_num_bits())); assert!(c_falsey_consts()); }
+
+  #[kani::proof]
+  fn o14_7_eq_reflexive() { assert!(c_eq_reflexive(any_num_bits())); }
 
   /// vacuity guard: the number domain assumed above is inhabited by the special values the property names
   #[kani::proof]
